@@ -146,7 +146,7 @@ JOBS = [
          late_preludes=['algo.h'], defines=['VP_ALGO_BODIES', 'VP_NMAX=1048576'], props=['C09'], thorough_reals=['float'],
          trusted=['libstdc++ std::partial_sum behaves like the reference left fold in vp/prelude/algo.h ([partial.sum])']),
     dict(name='discrete_ctor', functions=['discrete_distribution_ctor2'], entry='h_discrete_distribution_ctor2', enforce='discrete_distribution_ctor2',
-         replace=['vp_partial_sum'], af=['discrete_distribution_ctor2'], structs=[dict(unit='drivers', cls='discrete_distribution')],
+         replace=['vp_partial_sum', 'vp_accumulate'], af=['discrete_distribution_ctor2'], structs=[dict(unit='drivers', cls='discrete_distribution')],
          late_preludes=['algo.h'], globals='_Bool vp_g_total_ok;', defines=['VP_NMAX=1048576'], props=['C09', 'C17'], thorough_reals=['float'],
          trusted=['L-mono-div: IEEE division by a fixed positive divisor is monotone in the dividend (two-division comparison, undecided by the back ends)']),
     dict(name='discrete_call', functions=['discrete_distribution_call'], entry='h_discrete_distribution_call', enforce='discrete_distribution_call',
@@ -175,4 +175,5 @@ B2JOBS.append(dict(name='int_lemmas', mode='int', functions=[], property_file='s
 NATIVEJOBS = []
 
 REPLAYS = {'c16_tiling': dict(cpp='c16', link_fragments=sorted(FRAGMENTS)),
-           'invoke_nodist': 'invoke', 'invoke_dist': 'invoke'}
+           'invoke_nodist': 'invoke', 'invoke_dist': 'invoke',
+           'discrete_ctor': 'discrete', 'discrete_call': 'discrete', 'discrete_select': 'discrete', 'partial_sum': 'discrete'}
